@@ -1,10 +1,206 @@
+"""C05 - BICEPS / WS-* data types round-trip losslessly through XML (CrossHair on the real classes + FakeElement)."""
+import os
+
 from vf.main import Ob
 
-META = {'explanation': 'wip', 'outside': []}
-MANIFEST_ENTRY = {'engine': 'crosshair', 'technique': 'wip', 'text': 'wip', 'note': 'wip'}
+SEED = int(os.environ.get('VERIF_SEED', '0'))
+
+CORE = ('pm_types.CodedValue', 'pm_types.InstanceIdentifier', 'pm_types.LocalizedText',
+        'statecontainers.NumericMetricStateContainer', 'statecontainers.EnumStringMetricStateContainer',
+        'statecontainers.RealTimeSampleArrayMetricStateContainer',
+        'statecontainers.AlertSystemStateContainer', 'statecontainers.AlertSignalStateContainer',
+        'statecontainers.AlertConditionStateContainer', 'statecontainers.LimitAlertConditionStateContainer',
+        'statecontainers.LocationContextStateContainer', 'statecontainers.PatientContextStateContainer',
+        'eventing_types.Subscribe', 'eventing_types.SubscriptionEnd', 'wsd_types.HelloType')
+QUICK_ROTATING = 10         # additional classes per quick run, chosen by VERIF_SEED (all classes are reached over ~17 seeds)
+QUICK_BUDGET, THOROUGH_BUDGET = 48, 144   # max. product of per-member alternatives explored jointly in one window
+QUICK_PATHS, THOROUGH_PATHS = 110, 450    # max. paths per CrossHair process: a class with more is split into parts (by window)
+
+F_COMMON = ['sdc11073.xml_types.basetypes.XMLTypeBase.as_etree_node', 'sdc11073.xml_types.basetypes.XMLTypeBase.update_node',
+            'sdc11073.xml_types.basetypes.XMLTypeBase.update_from_node', 'sdc11073.xml_types.basetypes.XMLTypeBase.from_node',
+            'sdc11073.xml_types.basetypes.XMLTypeBase.sorted_container_properties',
+            'sdc11073.mdib.containerbase.ContainerBase.mk_node', 'sdc11073.mdib.containerbase.ContainerBase.update_node',
+            'sdc11073.mdib.containerbase.ContainerBase.update_from_node',
+            'sdc11073.xml_types.xml_structure._XmlStructureBaseProperty.__get__',
+            'sdc11073.xml_types.xml_structure._XmlStructureBaseProperty.__set__',
+            'sdc11073.xml_types.xml_structure._XmlStructureBaseProperty.init_instance_data',
+            'sdc11073.xml_types.xml_structure._XmlStructureBaseProperty.update_from_node',
+            'sdc11073.xml_types.xml_structure._AttributeBase.update_xml_value',
+            'sdc11073.xml_types.xml_structure._AttributeBase.get_py_value_from_node',
+            'sdc11073.xml_types.xml_structure._AttributeListBase.update_xml_value',
+            'sdc11073.xml_types.xml_structure._AttributeListBase.get_py_value_from_node',
+            'sdc11073.xml_types.xml_structure.NodeTextProperty.update_xml_value',
+            'sdc11073.xml_types.xml_structure.NodeTextProperty.get_py_value_from_node',
+            'sdc11073.xml_types.xml_structure.SubElementProperty.update_xml_value',
+            'sdc11073.xml_types.xml_structure.SubElementProperty.get_py_value_from_node',
+            'sdc11073.xml_types.xml_structure.SubElementListProperty.update_xml_value',
+            'sdc11073.xml_types.xml_structure.SubElementListProperty.get_py_value_from_node',
+            'sdc11073.xml_types.xml_structure.ContainerProperty.update_xml_value',
+            'sdc11073.xml_types.xml_structure.ContainerProperty.get_py_value_from_node',
+            'sdc11073.xml_types.xml_structure.ContainerListProperty.update_xml_value',
+            'sdc11073.xml_types.xml_structure.ContainerListProperty.get_py_value_from_node',
+            'sdc11073.xml_types.xml_structure.SubElementTextListProperty.update_xml_value',
+            'sdc11073.xml_types.xml_structure.SubElementTextListProperty.get_py_value_from_node',
+            'sdc11073.xml_types.xml_structure.NodeTextListProperty.update_xml_value',
+            'sdc11073.xml_types.xml_structure.NodeTextListProperty.get_py_value_from_node',
+            'sdc11073.xml_types.xml_structure.NodeTextQNameListProperty.update_xml_value',
+            'sdc11073.xml_types.xml_structure.NodeTextQNameListProperty.get_py_value_from_node',
+            'sdc11073.xml_types.xml_structure.ExtensionNodeProperty.update_xml_value',
+            'sdc11073.xml_types.xml_structure.ExtensionNodeProperty.get_py_value_from_node',
+            'sdc11073.xml_types.xml_structure.AnyEtreeNodeListProperty.update_xml_value',
+            'sdc11073.xml_types.xml_structure.AnyEtreeNodeListProperty.get_py_value_from_node',
+            'sdc11073.xml_types.dataconverters.StringConverter.to_py', 'sdc11073.xml_types.dataconverters.EnumConverter.to_py',
+            'sdc11073.xml_types.dataconverters.IntegerConverter.to_py', 'sdc11073.xml_types.dataconverters.BooleanConverter.to_py',
+            'sdc11073.namespaces.text_to_qname', 'sdc11073.namespaces.docname_from_qname',
+            'sdc11073.xml_utils.copy_node_wo_parent']
+
+STUBS = ['FakeElement (harness/fakeetree.py) replaces lxml.etree inside xml_structure, basetypes, containerbase, xml_utils: pure-Python '
+         'tree with XML wire semantics (empty text reads back as None; non-str text/attribute -> TypeError; QName values -> '
+         'prefix:local with generated prefixes; append moves). Validated every run against real lxml serialise+parse (see '
+         'assumptions: fidelity).',
+         'assume: strings consist of XML Char code points (lxml rejects others when the value is written)',
+         'assume: items of xsd list types (attribute lists, XAddrs/Scopes word lists) are non-empty and contain no whitespace '
+         '(the list item value space of XML Schema); pm:HandleRef items are non-empty (minLength 1)',
+         'assume: Decimal / duration / timestamp / date / QName members take values from small concrete pools (value space owned by C18)',
+         'FixedClock: xml_structure.time.time() returns a constant (ClockState/@DateAndTime is rewritten on every serialisation by '
+         'design and is excluded from all comparisons)',
+         'normalisation: for list-valued members None and [] denote the same wire value; a member declared with default_py_value '
+         'on a SubElementProperty reads back as that default when its element is absent (documented behaviour), for attribute / '
+         'text descriptors default_py_value is only the initial value of a new instance']
+
+META = {
+    'explanation': 'Obligations are generated by introspection of the current source: every subclass of XMLTypeBase / ContainerBase '
+                   'in pm_types, msg_types, eventing_types, wsd_types, addressing_types, dpws_types, mex_types, descriptorcontainers, '
+                   'statecontainers, basetypes and every property descriptor found on them (MRO scan, not only _props). '
+                   '(1) C05.kind.*: each descriptor class in each configuration that occurs in the source, driven directly: '
+                   'update_xml_value(v) then update_from_node on a fresh holder returns v (symbolic str incl. "", symbolic int, bool, '
+                   'enum member, list length); C05.enum.*: every member of every enum class. (2) C05.class.*: per class, members are '
+                   'partitioned into windows; inside a window every optional member has a symbolic presence bit and a symbolic value '
+                   '(str) or a value chosen by symbolic selector (pools, enum members, nested sample objects incl. xsi:type '
+                   'substitutions, list lengths 0..2); x -> as_etree_node/mk_node -> from_node -> y must agree member-wise '
+                   '(canonical snapshot, never __eq__), absent optional members must read back as the declared implied / default '
+                   'value AND as the implied value documented in the bundled XSD ("The implied value SHALL be ..."), the returned '
+                   'default must not be the class-level default object, and serialising y must give the same tree.',
+    'outside': ['XSD validity of the produced XML and _props order versus the schema sequence (decided by libxml2; the XSDs are only '
+                'used as the oracle for implied values)',
+                'attribute / element NAMES versus the schema (a descriptor that writes and reads the same wrong name round-trips; '
+                'only name collisions inside one class are visible, e.g. ClinicalInfo.Code)',
+                'joint presence patterns across different windows of one class (members outside the window are all absent, '
+                'thorough: additionally all present)',
+                'nested objects are concrete samples (their own class has its own obligation); nesting depth of samples <= 2',
+                'XML-illegal characters, comments, processing instructions, mixed content; namespace prefix choice of real lxml',
+                'value spaces of Decimal / duration / timestamp / date lexical forms (C18); ints outside the two pool values in '
+                'class obligations (symbolic ints 0..99999 only in the kind obligations)',
+                'HeaderInformationBlock.reference_parameters and other plain python attributes that are not property descriptors',
+                'descriptor classes that no class uses (listed in assumptions)'],
+    'assumptions': [],
+}
+
+
+def _select(tier, H):  # noqa: N803
+    reps = H.representatives()
+    rep_of = {}
+    for r, others in reps:
+        rep_of[r] = r
+        for o in others:
+            rep_of[o] = r
+    if tier != 'quick':
+        return reps
+    core = []
+    for c in CORE:
+        r = rep_of.get(c)
+        if r and r not in core:
+            core.append(r)
+    rest = [r for r, _ in reps if r not in core]
+    k = min(QUICK_ROTATING, len(rest))
+    start = (SEED * k) % max(len(rest), 1)
+    rot = [rest[(start + j) % len(rest)] for j in range(k)]
+    chosen = core + rot
+    return [(r, o) for r, o in reps if r in chosen]
+
 
 def obligations(tier):
-    import os
-    names = os.environ.get('C05_ONLY', 'pm_types.CodedValue,pm_types.InstanceIdentifier').split(',')
-    return [Ob(f'C05.class.{n}', 'harness.C05', 'class_roundtrip', bind={'cname': n, 'budget': 48, 'quick': True, 'bg': 0},
-               timeout=90, bounds='wip', claim='wip') for n in names]
+    from harness import C05 as H  # noqa: N812
+    quick = tier == 'quick'
+    budget = QUICK_BUDGET if quick else THOROUGH_BUDGET
+    obs = []
+    sel = _select(tier, H)
+
+    # ---- stub validation (concrete differential run against real lxml); a disagreement is a harness error, not a verdict
+    fid = H.fidelity_report([r for r, _ in sel], budget, quick)
+    kfid = H.kind_fidelity_report()
+    META['assumptions'] = [
+        f'fidelity: {fid["samples"]} concrete samples of {fid["classes"]} classes and {kfid["samples"]} samples of {kfid["kinds"]} '
+        f'descriptor configurations gave identical trees / values / exceptions through real lxml (serialise + parse) and through '
+        f'FakeElement in this run; outcomes that are not "ok" with REAL lxml: '
+        f'{sorted(fid["real_lxml_failures"])} {sorted(kfid["real_lxml_labels"].items())}',
+        f'descriptor classes not used by any class (not exercised): {H.UNUSED_DESCRIPTORS}',
+        f'classes without members (nothing to round-trip): {sorted(n for n in H.CLASSES if not H.MEMBERS[n] and not H.DANGLING_PROPS[n])}',
+        f'classes with members whose kind the harness cannot generate (reported inconclusive): '
+        f'{sorted(n for n in H.CLASSES if H.unsupported_members(n))}',
+    ]
+    if fid['mismatches'] or kfid['mismatches']:
+        obs.append(Ob('C05.stub.fidelity', 'checks.C05', 'ob_fidelity_failed', kind='py', timeout=60,
+                      params={'mismatches': [str(m)[:400] for m in (fid['mismatches'] + kfid['mismatches'])[:10]]},
+                      claim='FakeElement agrees with real lxml on the concrete samples', bounds='concrete differential run'))
+
+    # ---- (1) descriptor kinds
+    for key in H.KIND_REPS:
+        obs.append(Ob(f'C05.kind.{key}', 'harness.C05', 'kind_roundtrip', bind={'key': key}, timeout=60 if quick else 300,
+                      functions=F_COMMON, stubs=STUBS,
+                      bounds=f'{H.describe_kind(key)}; symbolic: presence bit, str s0,s1 (len <= 3, any characters, may be empty), '
+                             'int n0 in [0, 99999], bool b0, selector q0 < 4 (enum member / pool value / nested sample), list length < 3',
+                      claim='update_xml_value then update_from_node on a fresh instance gives back the value (absent -> implied / '
+                            'default, never the class-level default object); writing the read value gives the same tree'))
+    nchunks = (len(H.ENUMS) + H.ENUM_CHUNK - 1) // H.ENUM_CHUNK
+    for ch in range(nchunks):
+        names = [e.__name__ for e, _ in H.ENUMS[ch * H.ENUM_CHUNK:(ch + 1) * H.ENUM_CHUNK]]
+        obs.append(Ob(f'C05.enum.{ch}', 'harness.C05', 'enum_roundtrip', bind={'chunk': ch}, timeout=60 if quick else 300,
+                      functions=F_COMMON, stubs=STUBS, bounds=f'symbolic selectors: enum class among {names}, member among all of its members',
+                      claim='every enum member is written as its value and read back as the same member'))
+
+    # ---- (2) classes
+    for rep, others in sel:
+        cls = H.CLASSES[rep]
+        fqn = f'{cls.__module__}.{cls.__qualname__}'
+        unsupported = H.unsupported_members(rep)
+        total = sum(H.plan_paths(rep, budget, quick))
+        nparts = max(1, -(-total // (QUICK_PATHS if quick else THOROUGH_PATHS)))
+        nparts = min(nparts, len(H.get_plan(rep, budget, quick)))
+        for bg in ((0,) if quick else (0, 1)):
+            for part in range(nparts):
+                plan = H.describe_plan(rep, budget, quick, part, nparts)
+                oid = f'C05.class.{rep}' + (f'.part{part}' if nparts > 1 else '') + ('' if bg == 0 else '.bg_present')
+                obs.append(Ob(oid, 'harness.C05', 'class_roundtrip',
+                              bind={'cname': rep, 'budget': budget, 'quick': quick, 'part': part, 'nparts': nparts, 'bg': bg},
+                              timeout=90 if quick else 900, twin=(bg == 0 and part == 0),
+                              functions=F_COMMON + [fqn + '.__init__', fqn + '.from_node'],
+                              stubs=STUBS + ([f'members of unsupported kind left at their constructed value: {unsupported}'] if unsupported else []),
+                              bounds=f'class {rep}' + (f' (same declarations, hence also: {others})' if others else '') +
+                                     f'; symbolic: window selector, per optional member of the window a presence bit, str members = '
+                                     f'symbolic str (1..3 chars), other members by symbolic selector (int: 2 pool values, bool, enum: '
+                                     f'{"2" if quick else "3"} members, Decimal/duration/timestamp/date/QName: 2 pool values, nested '
+                                     f'object: {"2" if quick else "3"} samples incl. xsi:type substitution, lists: length 0..2); members '
+                                     f'outside the window: {"absent / empty" if bg == 0 else "all present (concrete)"}; {plan}',
+                              claim='from_node(as_node(x)) equals x member-wise; absent members read back as implied/default (also per '
+                                    'XSD documentation) and not as the shared class-level object; as_node(from_node(as_node(x))) == as_node(x)'))
+    return obs
+
+
+def ob_fidelity_failed(ctx):
+    return {'verdict': 'error', 'reason': 'FakeElement disagrees with real lxml: ' + '; '.join(ctx.params['mismatches'])}
+
+
+MANIFEST_ENTRY = {
+    'engine': 'crosshair',
+    'technique': 'bounded symbolic execution (CrossHair/z3) of the real property descriptors and of as_etree_node/mk_node -> from_node '
+                 'for every declared data type, on a pure-Python element tree with XML wire semantics; obligations generated by '
+                 'introspection of the source; implied values cross-checked against the bundled XSD documentation',
+    'text': 'Per descriptor configuration: value -> node -> value with symbolic str/int/bool/selectors ("Confirmed over all paths"). '
+            'Per class: symbolic presence bits and values for the members of one window at a time; member-wise canonical comparison, '
+            'implied/default values for absent members, identity of returned defaults, re-serialisation. quick: core classes + a '
+            'VERIF_SEED-rotated sample; thorough: every class (one representative per group of classes with identical declarations).',
+    'note': 'Trusted: CrossHair/z3 path exhaustion; FakeElement (validated each run by a concrete differential run against lxml '
+            'serialise+parse); XSD validity is decided by libxml2 and is outside the claim. Bounded: str <= 3 chars, lists <= 2, '
+            'nested samples concrete, presence patterns joint only inside a window.',
+}
